@@ -10,7 +10,15 @@ type Bus struct {
 	listeners []*listener
 }
 
-func (b *Bus) Send(ctx context.Context, event any) (ok bool) {
+// Targets are the listeners an event is to be sent to, see Bus.Targets.
+type Targets struct {
+	listeners []*listener
+}
+
+// Targets returns the listeners registered right now, for use with SendTo.
+// A caller that takes the targets while it holds the lock that makes its change visible, and sends the event later,
+// sends it to exactly the listeners that cannot have seen the change yet.
+func (b *Bus) Targets() Targets {
 	// create a copy of the listeners so avoid holding the mutex a long time
 	var listeners []*listener
 	b.listenerM.RLock()
@@ -19,6 +27,17 @@ func (b *Bus) Send(ctx context.Context, event any) (ok bool) {
 	}
 	b.listenerM.RUnlock()
 	verifAt("send.snap", b, len(listeners))
+	return Targets{listeners: listeners}
+}
+
+// Send sends event to all current listeners.
+func (b *Bus) Send(ctx context.Context, event any) (ok bool) {
+	return b.SendTo(ctx, b.Targets(), event)
+}
+
+// SendTo sends event to the given listeners.
+func (b *Bus) SendTo(ctx context.Context, targets Targets, event any) (ok bool) {
+	listeners := targets.listeners
 
 	needGc := false
 
